@@ -346,6 +346,29 @@ def axis_placement(e):
 def outer_idiom(idx, rep, rule, kind):
     fi = rule.func
     construct = rule.role
+    # AXES: the rule's own code interpreted over axis labels for 2, 3 and 4 factors (sa/axes.py).  Factor i must end up on axis i of
+    # the array that is flattened (row-major = Kronecker order), no two factors may meet on one axis, and the factors are combined by
+    # the kind's operation only.
+    from sa.axes import outer_order
+    runs = outer_order(idx, rule, "diag")
+    if all(r is not None for _n, r, _p in runs):
+        want_op = "mul" if kind == "Kronecker" else "add"
+        for n, r, _p in runs:
+            labels = [a for a in r.axes if a != "1"]
+            if r.conflict:
+                rep.refuted("rule-algebra", construct, f"with {n} factors, {r.conflict} (axes of the assembled array: {r.axes}): the factors are combined elementwise where an outer "
+                            f"{'product' if kind == 'Kronecker' else 'sum'} is required", detail="axis-order", locs=[rule.loc])
+                return
+            if labels != list(range(n)):
+                rep.refuted("rule-algebra", construct, f"with {n} factors the flattened array has the factors on axes {r.axes}; required factor i on axis i (row-major = Kronecker order)",
+                            detail="axis-order", locs=[rule.loc])
+                return
+            if r.ops != {want_op}:
+                rep.refuted("rule-algebra", construct, f"the factors' diagonals are combined by {sorted(r.ops)}; required {want_op} only", detail="reduction", locs=[rule.loc])
+                return
+        rep.proved("rule-algebra", construct, f"outer {'product' if kind == 'Kronecker' else 'sum'} with factor i on axis i, flattened row-major (interpreted over axis labels for "
+                   f"{', '.join(str(n) for n, _r, _p in runs)} factors)", locs=[rule.loc])
+        return
     # the index idiom may live in the rule or in a helper it calls
     fns, seen, work = [fi], {id(fi.node)}, [fi]
     while work:
@@ -375,6 +398,8 @@ def outer_idiom(idx, rep, rule, kind):
 def auto_selection(idx, rep, rule):
     fi = rule.func
     algp = rule.params[2][0]
+    from sa.autorule import option_forwarding
+    option_forwarding(idx, rep, rule, fi, algp)
     asg = df.assignments(fi.node)
     branch = next((n for n in fi.node.body if isinstance(n, ast.If)), None)
     if branch is None:
